@@ -1012,9 +1012,14 @@ class Client():
             except ValueError as ex:
                 raise httping.InvalidURL("Invalid redirect location '{0}': {1}"
                                          "".format(location, ex))
-            if splits.path.startswith('//'):  # build would take it for a host and port
-                raise httping.InvalidURL("Invalid redirect location '{0}': path "
-                                         "starts with //".format(location))
+            try:  # Requester.build splits the path again
+                resplit = urlsplit(splits.path)
+            except ValueError as ex:
+                raise httping.InvalidURL("Invalid redirect location '{0}': {1}"
+                                         "".format(location, ex))
+            if resplit.scheme or resplit.netloc:  # build would take part of path for them
+                raise httping.InvalidURL("Invalid redirect location '{0}': ambiguous "
+                                         "path '{1}'".format(location, splits.path))
             hostname = splits.hostname
             scheme = splits.scheme
             if not hostname:  # relative location so same scheme host and port
